@@ -135,3 +135,12 @@ Definition doc_img_uses : list (Z * list U.iuse) :=
 
 Lemma import_sites_match_model : U.img_uses = doc_img_uses.
 Proof. reflexivity. Qed.
+
+(** every offset the fast paths read lies in the buffer, in row y, in the columns of the bounds *)
+Lemma in_bounds_offsets_in_range : forall pl, wf pl -> validb pl = true ->
+  forall x y c, 0 <= x < pw pl -> 0 <= y < ph pl -> 0 <= c < 4 ->
+  0 <= off pl x y c < plen pl /\ y * pStride pl <= off pl x y c < y * pStride pl + pw pl * 4.
+Proof.
+  intros pl W V x y c Hx Hy Hc. split; [exact (off_range pl W V x y c Hx Hy Hc)|].
+  unfold off. lia.
+Qed.
